@@ -72,6 +72,7 @@ type Interp struct {
 	atoms    []Atom // recorded predicate atoms (differential mode)
 	invMemo   map[string]*Term
 	bigVals   map[*Obj]*Term
+	codecStore [][]Val
 	noSummary bool  // set while running a harness whose name says it validates a summary
 	curFn    []string
 }
